@@ -308,6 +308,13 @@ pub fn execute(sc: &NScenario, full_sweep_every_feed: bool) -> NReport {
         if h % 8 == 1 {
             crate::diag_n::header_checks(h, &mut fs, &mut |k| hits.push(k), &mut q);
         }
+        if h % 16 == 2 {
+            let mut kn = vec![];
+            crate::diag_n::action_error_checks(h, &scratch_base().join("act"), &mut fs, &mut kn, &mut |k| hits.push(k), &mut q);
+            for (id, d) in kn {
+                push_finding(&mut rep, "action-error-location", d, Some(id));
+            }
+        }
         rep.queries += q;
         for k in hits {
             *rep.probes.entry(k).or_insert(0) += 1;
@@ -959,6 +966,7 @@ pub fn check_main(tier: &str) -> i32 {
         eprintln!("harness error: evidence: {e}");
         return EXIT_HARNESS;
     }
+    let _ = std::fs::remove_dir_all(scratch_base());
     println!("engine N: {count} histories, {} queries, {} distinct multi-chunk histories, {:.1}s, loghash {:016x}", t.queries, t.digests.len(), wall, t.loghash);
     for l in lines {
         println!("{l}");
